@@ -221,17 +221,20 @@ theorem findAll_complete_deep (ctx : RCtx) (hreg : RegOK ctx) (fuel : Nat) (core
 
 /-- the *equalities* `findAllNodes = bruteForce(Deep)` are false as soon as abnormal outcomes
 count: a filter keeps a matcher from running, hence also from failing.  The cache `{5}` of
-`all: [nthChild: …, kind: 5]` keeps `nthChild`'s i32 overflow (a panic in debug builds) from
-happening on a node of kind 6; and with too little fuel the unfiltered search runs out of it on
-nodes the filtered one never looks at. -/
+`all: [matches: u, kind: 5]` keeps the cyclic utility `u = {matches: u}` (endless recursion: the
+recursion budget here, a stack overflow in the real code when such a rule gets past the loader)
+from being unfolded on a node of kind 6; and with too little fuel the unfiltered search runs out
+of it on nodes the filtered one never looks at.  (Before FIX_C11_3 the example was `nthChild`'s
+`i32` overflow panic; `is_matched` cannot overflow any more.) -/
 theorem findAll_error_masked_counterexample :
-    let rule := mkAll [] [] [.nthChild 1 (-2147483648) none false, .kind 5]
+    let rule := mkAll [] [] [.matches ['u'], .kind 5]
     let child := Tree.node ⟨6, true, false, false, 0, 1, none, 1⟩ []
     let root := Tree.node ⟨1, true, false, false, 0, 1, none, 0⟩ [child]
-    let ctx : RCtx := { src := [], root := root, regex := fun _ _ => false }
+    let ctx : RCtx := { src := [], root := root, regex := fun _ _ => false,
+                        locals := [(['u'], .matches ['u'])] }
     let core : RuleCore := { rule := rule, kinds := potentialKinds [] [] 64 rule }
     (match findAllNodes ctx 8 core root with | .ok [] => true | _ => false) = true ∧
-    (match bruteForceDeep ctx 8 core root with | .error .panic => true | _ => false) = true ∧
+    (match bruteForceDeep ctx 8 core root with | .error .fuel => true | _ => false) = true ∧
     (match findAllNodes ctx 1 core root with | .ok [] => true | _ => false) = true ∧
     (match bruteForce ctx 1 core root with | .error .fuel => true | _ => false) = true := by
   decide +kernel
